@@ -231,7 +231,7 @@ impl Model for BufModel {
         let mut acts = s.witness.clone();
         acts.push(a);
         let case = case_json(&self.init, &acts);
-        guard::enter(&case.to_string());
+        let _guard_scope = guard::scoped(&case.to_string());
         TRANS.fetch_add(1, Relaxed);
         match run_history(&self.init, &acts, acts.len() - 1) {
             Ok(key) => Some(St { key, witness: acts, bad: false }),
@@ -250,7 +250,7 @@ impl Model for BufModel {
 fn main() {
     let ctx: &'static Ctx = Ctx::leak("C14", "release");
     if let Some(v) = ctx.replay_case() {
-        guard::enter(&v.to_string());
+        let _guard_scope = guard::scoped(&v.to_string());
         let i = Init { cap: v["cap"].as_u64().unwrap_or(1) as u8, start: v["start"].as_u64().unwrap_or(0) as u8, len: v["len"].as_u64().unwrap_or(0) as u8, src: v["src"].as_u64().unwrap_or(0) as u8 };
         if v["sys"] == "buffered_drain" {
             ctx.finish_replay(catch(|| drain_case(&i)).unwrap_or_else(|p| Some(("panic".into(), p))).map(|e| e.1));
@@ -291,7 +291,7 @@ fn main() {
         .par_iter()
         .map(|i| {
             let mut counts = (0u64, 0u64);
-            guard::enter(&case_json(i, &[]).to_string());
+            let _guard_scope = guard::scoped(&case_json(i, &[]).to_string());
             if let Some((k, m)) = drain_case(i) {
                 let mut cj = case_json(i, &[]);
                 cj["sys"] = json!("buffered_drain");
@@ -347,7 +347,7 @@ fn main() {
     let soak_steps = ctx.tier.pick(20_000usize, 200_000);
     for cap in [1u8, 2, 3, 5, 8, 48, 64] {
         let i = Init { cap, start: cap - 1, len: cap / 2, src: 0 };
-        guard::enter(&json!({"sys":"buffered_soak","cap":cap,"steps":soak_steps}).to_string());
+        let _guard_scope = guard::scoped(&json!({"sys":"buffered_soak","cap":cap,"steps":soak_steps}).to_string());
         let alpha = alphabet(cap);
         let acts: Vec<Act> = (0..soak_steps).map(|t| if t % 4 == 3 { alpha[(t * 5 + t / 9) % alpha.len()] } else { Act::Next }).collect();
         ctx.add_evals(soak_steps as u64);
